@@ -263,10 +263,10 @@ def _double_reconnect(rep, wd, tier):
     path = os.path.join(wd, "dr.ndjson")
     with open(path, "w", encoding="utf-8") as fh:
         for t in ts:
-            fh.write(json.dumps({"ev": t["ev"], "nproduced": t["nproduced"], "ndropped": t["ndropped"]}) + "\n")
+            fh.write(json.dumps({"ev": t["ev"], "nproduced": t["nproduced"], "ndropped": t["ndropped"], "nleft": t["nleft"]}) + "\n")
     cfg = os.path.join(wd, "dr.cfg")
     with open(cfg, "w", encoding="utf-8") as fh:
-        fh.write("SPECIFICATION TSpec\nCONSTANTS NMsgs = 2\n Snapshot = TRUE\n ClearFirst = TRUE\n LostExc = TRUE\n WithUser = FALSE\n"
+        fh.write("SPECIFICATION TSpec\nCONSTANTS NMsgs = 2\n Snapshot = TRUE\n ClearFirst = TRUE\n LostExc = TRUE\n WithUser = FALSE\n WithStop = FALSE\n"
                  " WithLost = TRUE\n WithConnector = TRUE\n MaxConn = 4\nCONSTRAINT Track\nPOSTCONDITION Post\nCHECK_DEADLOCK FALSE\n")
     r = tlc.run("SendRaceTrace", cfg, workdir=os.path.join(wd, "dr"), workers=1, deque=True, env={"TRACE_FILE": path}, timeout=900)
     tlc.must_ok(r, "SendRaceTrace (double reconnect)")
